@@ -456,7 +456,9 @@ theorem build_ok_in_range (enabled : Bool) (f4 f6 m4 m6 : Nat) (nets : List (Opt
 
 /-- In the current tree: `Build` defaults are at most /24 and /56, floors
 default to at most the ceilings, out-of-range values and unparsable networks
-are rejected, a disabled block yields no policy, the shipped configuration has
+are rejected (incl. every entry of the fixed table of non-CIDR strings — blank,
+whitespace-only, padded, CIDR plus garbage, bare address — alone and next to
+valid entries), a disabled block yields no policy, the shipped configuration has
 forwarding off with a 5-minute (or shorter, non-zero) scoped TTL cap, and the
 subnet option code is 8. -/
 theorem tree_facts :
@@ -466,6 +468,9 @@ theorem tree_facts :
     SdnsVerif.Gen.C19.max_accepted_forward_v4 ≤ 32 ∧ SdnsVerif.Gen.C19.max_accepted_forward_v6 ≤ 128 ∧
     SdnsVerif.Gen.C19.max_accepted_min_scope_v4 ≤ 32 ∧ SdnsVerif.Gen.C19.max_accepted_min_scope_v6 ≤ 128 ∧
     SdnsVerif.Gen.C19.bad_network_rejected = true ∧ SdnsVerif.Gen.C19.disabled_build_is_nil = true ∧
+    (∀ b ∈ SdnsVerif.Gen.C19.bad_entry_table_rejected, b = true) ∧
+    SdnsVerif.Gen.C19.bad_entry_table_rejected.length = SdnsVerif.Gen.C19.bad_entry_table.length ∧
+    30 ≤ SdnsVerif.Gen.C19.bad_entry_table.length ∧
     SdnsVerif.Gen.C19.zero_config_cache_policy_nil = true ∧ SdnsVerif.Gen.C19.zero_config_edns_policy_nil = true ∧
     SdnsVerif.Gen.C19.shipped_enabled = false ∧
     SdnsVerif.Gen.C19.shipped_forward_v4 ≤ 24 ∧ SdnsVerif.Gen.C19.shipped_forward_v6 ≤ 56 ∧
